@@ -11,6 +11,7 @@ if len(sys.argv) > 1 and os.path.exists(sys.argv[1]):
             continue
         matrix[os.path.basename(r["dir"])] = r
 rows = []
+overrides = json.load(open(os.path.join(ROOT, "seeded", "overrides.json"))) if os.path.exists(os.path.join(ROOT, "seeded", "overrides.json")) else {}
 for d in sorted(glob.glob(os.path.join(ROOT, "seeded", "C*-m*"))):
     sid = os.path.basename(d)
     prop = sid.split("-")[0]
@@ -19,9 +20,10 @@ for d in sorted(glob.glob(os.path.join(ROOT, "seeded", "C*-m*"))):
     title = re.sub(r"^#+\s*", "", lines[0]) if lines else sid
     needs = " ".join(lines[1:])[:1400]
     files = sorted(set(re.findall(r"^\+\+\+ b/(\S+)", open(os.path.join(d, "patch.diff")).read(), flags=re.M)))
-    meta = {"id": sid, "property": prop, "origin": "independent sub-agent, round %d (given only the property record and a scratch worktree)" % (1 if sid[-1] in "12" else 2),
+    meta = {"id": sid, "property": prop, "origin": "independent sub-agent, round %d (given only the property record and a scratch worktree)" % ((int(sid[-1]) + 1) // 2),
             "title": title, "files_changed": files, "needs_to_manifest": needs,
             "confirmed": "repository tests: 367 passed with the change; demo.py exits 1 with the change and 0 without (tools/eval_seeded.py)"}
+    meta.update(overrides.get(sid, {}))
     r = matrix.get(sid)
     if r:
         meta["repo_tests_with_change"] = r.get("repo_tests")
@@ -40,8 +42,9 @@ if rows:
                  "(all 20 quick checks were run for every change on a scratch clone of the repository), and whether the check of the targeted property is among them.\n\n")
         fd.write("| change | targets | caught by (quick tier) | own property | what it is |\n|---|---|---|---|---|\n")
         for sid, prop, caught, inc, title in rows:
-            fd.write("| %s | %s | %s | %s | %s |\n" % (sid, prop, " ".join(caught) or "-", "yes" if prop in caught else "NO", title[:110].replace("|", "/")))
-        own = sum(1 for r in rows if r[1] in r[2])
-        anyc = sum(1 for r in rows if r[2])
-        fd.write("\n%d changes; %d caught by the check of their own property, %d by at least one check.\n" % (len(rows), own, anyc))
+            fd.write("| %s | %s | %s | %s | %s |\n" % (sid, prop, " ".join(caught) or "-", "yes" if prop in caught else ("n/a: " + overrides[sid]["status"] if sid in overrides else "NO"), title[:110].replace("|", "/")))
+        live = [r for r in rows if r[0] not in overrides]
+        own = sum(1 for r in live if r[1] in r[2])
+        anyc = sum(1 for r in live if r[2])
+        fd.write("\n%d changes that break their property; %d caught by the check of their own property, %d by at least one check. %d further change(s) no longer break anything (see seeded/overrides.json) and every check stays silent on them.\n" % (len(live), own, anyc, len(rows) - len(live)))
 print("meta for", len(glob.glob(os.path.join(ROOT, "seeded", "C*-m*"))), "changes; matrix rows", len(rows))
